@@ -30,7 +30,7 @@
    update, a bucket's copy and a Get's read of its key are one step each; the tbl engine replays the
    real table's hook-to-hook schedules on this model.  Clear under concurrency is checked by
    implementation oracles only. *)
-From Otter Require Import Base HashMap HashMapFacts HashMapBytes HashMapRefine HashMapConc HashMapConcProofs HashMapConcLive HashMapConcSize.
+From Otter Require Import Base HashMap HashMapFacts HashMapBytes HashMapRefine HashMapConc HashMapConcProofs HashMapConcLive HashMapConcSize HashMapConcLin.
 From Coq Require Import Permutation.
 
 Theorem C15_seq_refines_map : forall hashf n ops,
@@ -86,6 +86,18 @@ Print Assumptions C15_get_exact.
    hash functions, tables growing and shrinking underneath (buckets copied in any order).  [spec] is the
    abstract map: only the update step changes it, to [upd spec k (f (spec k))]; [hist] lists its
    successive values. ---- *)
+
+(* the linearization, stated without reference to how the ghosts are computed: [ulog] lists the threads
+   in the order of their update steps; the published table is what one gets by applying their functions
+   in that order, one after the other, to the empty map (each function to the binding the previous ones
+   left); and a thread occurs in that list exactly as often as it has applied its function: once when
+   its Compute is past its update, never before *)
+Theorem C15_concurrent_linearization : forall hidx KU n0 ops sched, (1 <= n0)%nat ->
+  let s := hrun hidx KU (hinit n0 ops) sched in
+  (forall k, stores s (hcur s) k = replay (map (kf_of (hths s)) (ulog s)) k) /\
+  (forall j t, nth_error (hths s) j = Some t -> count_occ Nat.eq_dec (ulog s) j = b2n (applied t)).
+Proof. exact conc_linearization. Qed.
+Print Assumptions C15_concurrent_linearization.
 
 (* nothing is lost across resizes: at every moment the table m.table points to holds exactly the
    abstract map (a key inserted and not removed is there; a removed key is not) *)
